@@ -7,7 +7,7 @@ import pykoop
 from .. import core, pipes, structural as st
 
 THEOREMS = ['Pk.C03.C03_transform_refines', 'Pk.C03.C03_inverse_refines', 'Pk.C03.C03_layout_irrelevant', 'Pk.C03.C03_window',
-            'Pk.C03.C03_slice', 'Pk.C03.C03_utils', 'Pk.C03.C03_split_combine']
+            'Pk.C03.C03_slice', 'Pk.C03.C03_utils', 'Pk.C03.C03_split_combine', 'Pk.C03.C03_provenance_sound']
 KINDS = ['poly', 'bilinear', 'const', 'delay', 'delay', 'sk', 'angle', 'rbf', 'kernel']
 ALG = ['poly', 'bilinear', 'const', 'delay', 'delay']
 
